@@ -32,6 +32,20 @@ Round-3 family extensions (EXTENDING.md): additional tasks, labelled
           long-scale the L = 160 default-parameter histories measured in units of 1e-9 and 1e8 (Page-Hinkley's delta,
                      an amplitude in the unit of the data, scaled along), k <= 1.
 Their tolerances scale with the conditioning of the data (``_tol``).
+
+Round-4 families - the caller re-uses its containers (``REUSE`` / ``_Rig``): the harness keeps ONE container per role,
+refills it in place and passes the same object (or a one-row view / slice of it) for every call of a history; the
+oracle is unchanged (the model sees the numbers, never the objects).  Snapshots of such a state are rebuilt by
+replaying the logged calls on a fresh detector and fresh containers, so every explored state is the state a
+from-scratch execution reaches (a deepcopy would cut view aliasing).
+  reuse-cell   one (1,1) / (1,) float64 ndarray;   reuse-ring  2-row rings (shorter than the burn-in), 3-row chunk
+  buffers cleared when they wrap, 2-D and 1-D, rows passed as views;   reuse-pd  one-element Series / one-cell
+  DataFrame refilled with .iloc, and 2-3-row Series / DataFrame rings whose one-row slices are passed;
+  reuse-typed  float32 / int64 buffers;   reuse-mix  ndarray, Series, DataFrame and list containers in turn, each
+  coming round again after 2-3 calls;   reuse-scrub  the caller overwrites all its containers with NaN right after
+  update() returns, before it reads drift_state / to_dataframe();   reuse-dev  the twelve L = 40 level-shift
+  configurations (4-6 alarms; given statistics get re-estimated) with <= 1 replaced position, one feed each;
+  long-reuse   default parameters (burn-in 30), L = 160, a cell, a 7-row ring and a 50-row chunk buffer.
 """
 import itertools
 import math
@@ -155,6 +169,8 @@ def _wrap(kind, v):
 #          ring2/Rw       the same, and every time the ring wraps the caller first clears the whole buffer (NaN) - a chunk
 #                         loader that reads the next chunk into the same memory
 #          ser / df       a one-element Series / one-cell DataFrame (labelled column, row label 7), ``.iloc`` refill
+#          serring/R      an R-element Series / R-row one-column DataFrame (row labels 7 ...) used as a ring: the caller
+#          dfring/R       writes one cell with ``.iloc`` and passes the one-row slice ``buf.iloc[i:i+1]``
 #          l1             a one-element python list, refilled in place
 #          ...f32 / i64   the ndarray roles with a float32 / int64 buffer
 #   scrub "nan": right after update() returns - before the caller reads drift_state / to_dataframe() - the caller
@@ -168,20 +184,28 @@ REUSE = {
     "r-ring1/3": (["ring1/3"], None),
     "r-ring2/7": (["ring2/7"], None),
     "r-chunk50": (["ring2/50w"], None),
+    "r-chunk3": (["ring2/3w"], None),
+    "r-chunk3-1d": (["ring1/3w"], None),
     "r-ser": (["ser"], None),
     "r-df": (["df"], None),
+    "r-serring/3": (["serring/3"], None),
+    "r-serring/2": (["serring/2"], None),
+    "r-dfring/2": (["dfring/2"], None),
+    "r-dfring/3": (["dfring/3"], None),
     "r-c2f32": (["c2f32"], None),
     "r-c1f32": (["c1f32"], None),
     "r-c2i64": (["c2i64"], None),
     "r-ring1/2i64": (["ring1/2i64"], None),
-    "r-mix": (["c2", "ring2/2", "c1", "ser", "l1", "df", "ring1/3"], None),  # every role keeps its own container
+    # every role keeps its own container; each container comes round again after 2-3 calls (the other shapes in between)
+    "r-mix": (["c2", "c1", "c2", "ser", "c1", "df", "ser", "l1", "df", "ring1/2", "l1", "ring1/2", "ring1/2"], None),
     "r-c2+nan": (["c2"], "nan"),
     "r-c1+nan": (["c1"], "nan"),
     "r-ring2/3+nan": (["ring2/3"], "nan"),
     "r-ser+nan": (["ser"], "nan"),
 }
+REUSE_ROLES = sorted({r for roles, _ in REUSE.values() for r in roles})
 F32_FEEDS = ("f32", "r-c2f32", "r-c1f32")
-_ROLE = re.compile(r"(c2|c1|ring2|ring1|ser|df|l1)(?:/(\d+)(w)?)?(f32|i64)?")
+_ROLE = re.compile(r"(c2|c1|ring2|ring1|serring|dfring|ser|df|l1)(?:/(\d+)(w)?)?(f32|i64)?")
 
 
 def _addr(obj):
@@ -244,16 +268,25 @@ class _Rig:
             buf[0] = float(v)
             self.inplace = True
             return buf, seen
-        if shape in ("ser", "df"):
+        if shape in ("ser", "df", "serring", "dfring"):
             if fresh:
-                buf = self.bufs[role] = pd.Series([0.0]) if shape == "ser" else pd.DataFrame({"x": [0.0]}, index=[7])
+                if shape.startswith("ser"):
+                    buf = pd.Series([0.0] * r)
+                else:
+                    buf = pd.DataFrame({"x": [0.0] * r}, index=list(range(7, 7 + r)))
+                self.bufs[role] = buf
+            slot = k % r
             before = _addr(buf)
-            if shape == "ser":
-                buf.iloc[0] = float(v)
+            if shape.startswith("ser"):
+                buf.iloc[slot] = float(v)
             else:
-                buf.iloc[0, 0] = float(v)
+                buf.iloc[slot, 0] = float(v)
+            # pandas (copy-on-write) re-allocates the block if anybody still holds a reference to it - e.g. a detector
+            # that kept the very Series / DataFrame slice it was handed: then nothing is shared and nothing can go wrong
             self.inplace = _addr(buf) == before
-            return buf, seen
+            if shape in ("ser", "df"):
+                return buf, seen
+            return buf.iloc[slot:slot + 1], seen  # a one-row slice of the caller's chunk (shares its memory)
         if fresh:
             full = {"c2": (1, 1), "c1": (1,), "ring2": (r, 1), "ring1": (r,)}[shape]
             buf = self.bufs[role] = np.zeros(full, dtype=dt)
@@ -279,9 +312,11 @@ class _Rig:
                 if isinstance(b, list):
                     b[0] = float("nan")
                 elif isinstance(b, pd.Series):
-                    b.iloc[0] = np.nan
+                    for i in range(len(b)):
+                        b.iloc[i] = np.nan
                 elif isinstance(b, pd.DataFrame):
-                    b.iloc[0, 0] = np.nan
+                    for i in range(len(b)):
+                        b.iloc[i, 0] = np.nan  # cell by cell: ``iloc[:, 0] = ...`` would swap the column's array
                 else:
                     b[...] = np.nan
         return x, exc
@@ -1015,15 +1050,20 @@ X_DFS = [
     ("CUSUM", "reuse-cell", E1, "base", "r-c2", 7, 8), ("CUSUM", "reuse-cell", E2, "frac", "r-c1", 6, 7),
     ("CUSUM", "reuse-cell", E4, "base", "r-c1", 6, 7), ("CUSUM", "reuse-cell", E3, "mix", "r-c2", 6, 7),
     ("CUSUM", "reuse-cell", _C(2, 0.5, 1, None, 1, 2), "base", "r-c2", 6, 7),
-    ("CUSUM", "reuse-cell", _C(3, 0, 1, "positive", 0, 1), "base", "r-c1", 6, 7),
-    ("CUSUM", "reuse-ring", E2, "base", "r-ring2/2", 7, 8), ("CUSUM", "reuse-ring", E3, "frac", "r-ring1/2", 6, 7),
-    ("CUSUM", "reuse-ring", E4, "base", "r-ring2/3", 6, 7), ("CUSUM", "reuse-ring", E1, "mix", "r-ring1/3", 6, 7),
-    ("CUSUM", "reuse-ring", _C(3, 0.5, 1, "negative", 1, 2), "base", "r-ring2/2", 6, 7),
+    ("CUSUM", "reuse-cell", _C(2, 0, 1, "positive", 0, 1), "base", "r-c1", 7, 8),
+    # a ring of R >= burn_in rows always holds the last burn_in observations (mean / sd do not care about their order):
+    # rings are shorter than the burn-in (2 rows, burn-in 3), or are chunk buffers that the caller clears when it wraps
+    # (3 rows, burn-in 2 and 3: the window straddles the refill).  Given statistics are first re-estimated after an
+    # alarm; the L = 40 histories of the reuse-dev family take them through 4-6 epochs.
+    ("CUSUM", "reuse-ring", E2, "base", "r-ring2/2", 7, 8), ("CUSUM", "reuse-ring", E4, "frac", "r-ring1/2", 6, 7),
+    ("CUSUM", "reuse-ring", _C(2, 0.5, 1, "negative"), "base", "r-chunk3", 7, 8), ("CUSUM", "reuse-ring", E1, "mix", "r-chunk3-1d", 6, 7),
+    ("CUSUM", "reuse-ring", E3, "base", "r-ring2/3", 6, 7),  # ring longer than the burn-in: decisions must not notice it
     ("CUSUM", "reuse-pd", E1, "frac", "r-ser", 6, 7), ("CUSUM", "reuse-pd", E2, "mix", "r-df", 6, 7),
     ("CUSUM", "reuse-pd", _C(2, 0, 2, "negative", 1, 1), "base", "r-ser", 6, 7),
+    ("CUSUM", "reuse-pd", E2, "base", "r-serring/2", 6, 7), ("CUSUM", "reuse-pd", E4, "frac", "r-dfring/2", 6, 7),
     ("CUSUM", "reuse-typed", E1, "dy32", "r-c2f32", 6, 7), ("CUSUM", "reuse-typed", E2, "base", "r-c2i64", 6, 7),
     ("CUSUM", "reuse-typed", E3, "base", "r-ring1/2i64", 6, 7), ("CUSUM", "reuse-typed", E4, "dy32", "r-c1f32", 6, 7),
-    ("CUSUM", "reuse-mix", E2, "base", "r-mix", 7, 8), ("CUSUM", "reuse-mix", E1, "frac", "r-mix", 6, 7),
+    ("CUSUM", "reuse-mix", E2, "base", "r-mix", 7, 8), ("CUSUM", "reuse-mix", E4, "frac", "r-mix", 6, 7),
     ("CUSUM", "reuse-scrub", E1, "base", "r-c2+nan", 6, 7), ("CUSUM", "reuse-scrub", E2, "frac", "r-ring2/3+nan", 6, 7),
     ("CUSUM", "reuse-scrub", _C(2, 0, 2, "negative", 1, 1), "base", "r-c1+nan", 6, 7),
     ("CUSUM", "reuse-scrub", E3, "mix", "r-ser+nan", 6, 7),
@@ -1034,6 +1074,8 @@ X_DFS = [
     ("PageHinkley", "reuse-ring", _H("negative", 1, 0.5, 1), "mix", "r-ring1/3", 5, 6),
     ("PageHinkley", "reuse-pd", _H("positive", 1, 0, 1), "frac", "r-ser", 5, 6),
     ("PageHinkley", "reuse-pd", _H("negative", 0, 0.5, 2), "mix", "r-df", 5, 6),
+    ("PageHinkley", "reuse-pd", _H("positive", 1, 0, 1), "base", "r-dfring/3", 5, 6),
+    ("PageHinkley", "reuse-pd", _H("negative", 1, 0.5, 1), "frac", "r-serring/3", 5, 6),
     ("PageHinkley", "reuse-typed", _H("positive", 1, 0, 1), "dy32", "r-c2f32", 5, 6),
     ("PageHinkley", "reuse-typed", _H("negative", 0, 0.5, 2), "base", "r-c2i64", 5, 6),
     ("PageHinkley", "reuse-mix", _H("positive", 1, 0, 1), "base", "r-mix", 6, 7),
@@ -1064,6 +1106,8 @@ FAM_ALARMS = {
 # burn-in longer than every history: alarms are impossible, that is the point
 FAM_QUIET = {"cusum": ["par-bBig"], "ph": ["par-bBig"]}
 FAM_NARROW = {"cusum": ["feed-narrow"], "ph": []}  # found the (since repaired) narrow-integer wrap-around
+# round 4: the caller re-uses its containers (every family must step and alarm for both detectors)
+FAM_REUSE = ["reuse-cell", "reuse-ring", "reuse-pd", "reuse-typed", "reuse-mix", "reuse-scrub", "reuse-dev", "long-reuse"]
 
 
 def _x_cfg(system, fam, params, alpha, feed, L, tag):
@@ -1184,8 +1228,32 @@ def _x_long_reuse_tasks(system, feed, tier):
     return out
 
 
+# reuse-dev: the twelve L = 40 level-shift configurations of DEV_CFGS (4-6 alarms each: given statistics are
+# re-estimated, estimated ones several times) fed through re-used containers, every history with <= k replaced positions
+# (k = 1; thorough: 2 for CUSUM).  One feed per configuration, in the order of DEV_CFGS.
+DEV_REUSE_FEEDS = ["r-c2", "r-ring2/2", "r-mix", "r-chunk3", "r-ser", "r-ring1/2", "r-mix", "r-dfring/2",
+                   "r-mix", "r-ring2/3", "r-c1", "r-serring/3"]
+
+
+def _x_reuse_dev_tasks(tier):
+    out = []
+    for i, (system, dname, p, _kq, _kt) in enumerate(DEV_CFGS):
+        feed = DEV_REUSE_FEEDS[i]
+        k = 2 if (tier != "quick" and system == "CUSUM") else 1
+        cfg = _x_cfg(system, "reuse-dev", p, "base", feed, len(DEV_DEFAULTS[dname]),
+                     "dev%d-%s-%s" % (i, dname, _cid(_kind_of(system, p), p)))
+        for t in _dev_tasks(i, system, dname, p, k):
+            t["cfg"] = cfg
+            t["label"] = t["label"].replace(system + "|", "%s|reuse-dev|%s|" % (system, feed), 1)
+            t["validate_every"] = 37
+            t["cost"] = t["cost"] * 2
+            out.append(t)
+    return out
+
+
 def _extension_tasks(tier):
     out = []
+    out.extend(_x_reuse_dev_tasks(tier))
     for system, fam, params, alpha, feed, dq, dt in X_DFS:
         out.extend(_x_dfs_tasks(system, fam, params, alpha, feed, dq if tier == "quick" else dt))
     for feed in LONG_REUSE_FEEDS:
@@ -1240,6 +1308,14 @@ for _s in ("cusum", "ph"):
     REQUIRED += ["fam_%s_%s_steps" % (_s, f) for f in FAM_ALARMS[_s] + FAM_QUIET[_s] + FAM_NARROW[_s]]
     REQUIRED += ["fam_%s_%s_alarms" % (_s, f) for f in FAM_ALARMS[_s]]
 
+# round-4 families: every family steps and alarms for both detectors, and every role's container really was refilled in
+# place (a container that pandas / numpy re-allocated on assignment would make its family vacuous: the counter
+# ``reuse_container_reallocated:<role>`` is reported, its in-place twin is demanded)
+for _s in ("cusum", "ph"):
+    REQUIRED += ["fam_%s_%s_steps" % (_s, f) for f in FAM_REUSE]
+    REQUIRED += ["fam_%s_%s_alarms" % (_s, f) for f in FAM_REUSE]
+REQUIRED += ["reuse_calls"] + sorted("reuse_refilled_in_place:%s" % r for r in REUSE_ROLES)
+
 # wall-clock safety net only (the machine is shared; bounds are sized by CPU seconds / 16)
 TIME_BUDGET = {"quick": 3600, "thorough": 21600}
 
@@ -1283,6 +1359,22 @@ def describe(tier):
                 ],
                 "long": "CUSUM() and PageHinkley() with default parameters on a level-shift history of length 160 over "
                 "{-2,0,1,4}, every history with <= 1 replaced position",
+                "round4_reuse": {
+                    "what": "the caller keeps one container per role, refills it in place and passes the same object (or a "
+                    "one-row view / slice of it) at every call; same oracle (the model sees the values only); snapshots are "
+                    "rebuilt by replaying the logged calls on a fresh detector with fresh containers",
+                    "feeds": {k: {"roles_cycled_with_position": v[0], "scrub_after_update": v[1]} for k, v in sorted(REUSE.items())},
+                    "dfs": "the entries of 'dfs' above whose family starts with 'reuse-'",
+                    "reuse_dev": [
+                        {"system": sy, "default": dn, "params": pp, "feed": DEV_REUSE_FEEDS[i], "L": len(DEV_DEFAULTS[dn]),
+                         "k": 2 if (tier != "quick" and sy == "CUSUM") else 1}
+                        for i, (sy, dn, pp, _kq, _kt) in enumerate(DEV_CFGS)
+                    ],
+                    "long_reuse": {
+                        "feeds": LONG_REUSE_FEEDS, "L": 160, "k": 1, "parameters": "defaults",
+                        "replaced_positions": {sy: _long_reuse_positions(sy, tier) for sy in ("CUSUM", "PageHinkley")},
+                    },
+                },
                 "long_scale": "the same two histories with every value multiplied by 1e-9 and by 1e8 (CUSUM(): default "
                 "parameters; PageHinkley(delta=0.01*unit)): every history with <= 1 replaced position"
                 + (" (unit 1e8: replaced positions 0-53 only)" if tier == "quick" else ""),
@@ -1325,6 +1417,12 @@ def describe(tier):
             "scale families (1e-9 ... 1e8): no absolute tolerance is used anywhere - the noise floor is 64*L*eps*max|x| of "
             "the family's own alphabet, change_scores must be the number fed, and in the power-of-two families (2^-30, "
             "2^27) float arithmetic is exact, so ties are enforced there as on the small integers",
+            "round-4 reuse families: containers are float64 / float32 / int64 ndarrays (C-contiguous, rows passed whole or as "
+            "basic-slice views), Series, one-column DataFrames and python lists; a ring of >= burn_in rows that is never "
+            "cleared always holds CUSUM's re-estimation window, so CUSUM rings are shorter than the burn-in or are cleared "
+            "when they wrap; not explored: the caller mutating the frame returned by to_dataframe(), the detector writing "
+            "into the caller's container (neither is a statement of C04), read-only or non-contiguous inputs, parameters "
+            "(target / sd_hat) passed as arrays that are mutated later",
             "manual reset() calls between updates, CUSUM(target given, sd_hat=None) / (target=None, sd_hat given) and "
             "negative slack are not explored: the property defines no expected behaviour for them",
         ],
